@@ -664,6 +664,14 @@ func runC04(r *Rand, tier string, o *Out) {
 		}
 		o.Count("scenario:caller-closes-with-calls-in-flight")
 	}
+	// the handler slots of a shared client: a cancelled call whose answer crosses its cancel message, next to a call of
+	// another caller; overlapping calls after a handler was removed twice
+	for _, op := range []string{"c04.cancelcross", "c04.staleremove", "c04.cancelcross"} {
+		if out := o.Do("P", op, true); out != "ok" {
+			o.Fail("calls that share a client: "+strings.SplitN(strings.TrimPrefix(out, "fail:"), ":", 2)[0], op+" => "+out)
+		}
+		o.Count("scenario:handler-slots-of-a-shared-client")
+	}
 	// calls the server forwards to an object hosted by a client, which answers late and in its own order
 	lends := [][4]int{{1, 6, 1, 1}, {4, 6, 1, 4}, {8, 5, 2, 3}, {6, 8, 3, 16}}
 	if tier == "thorough" {
